@@ -69,6 +69,12 @@ func verifC06Run(conn *verifStreamConn, cl CipherList, cache *ReplayCache, wantS
 	dialer := &verifDialer{conn: &verifStreamConn{name: "target", remote: &net.TCPAddr{IP: net.IPv4(93, 184, 216, 34), Port: 80}}}
 	h := NewStreamHandler(NewShadowsocksStreamAuthenticator(cl, cache, nil, nil), tcpReadTimeout)
 	h.SetTargetDialer(dialer)
+	if verifC06Debug {
+		// the server run with -verbose: what happens to a refused connection must not depend on it
+		verifDebugLogging(true)
+		defer verifDebugLogging(false)
+		h.SetLogger(verifDebugLogger())
+	}
 	m := &verifTCPMetrics{}
 	t0 := time.Now()
 	ctx := context.Background()
@@ -118,6 +124,8 @@ func verifC06Run(conn *verifStreamConn, cl CipherList, cache *ReplayCache, wantS
 	verifAssert("C15.bytes", m.closedData[0] == int64(total) && m.closedData[1] == 0 && m.closedData[2] == 0 && m.closedData[3] == 0)
 	return m, dialer
 }
+
+var verifC06Debug bool
 
 var verifProbeLens = []int{0, 1, 49, 50, 51, 73}
 
@@ -278,6 +286,8 @@ func VH_C08_reflected() {
 	conn := &verifStreamConn{name: "client", remote: &net.TCPAddr{IP: net.IPv4(203, 0, 113, 5), Port: 50000}}
 	conn.reads = []verifSRead{{data: buf.b}}
 	if marked {
+		verifC06Debug = verifFlag("debug-logging")
+		defer func() { verifC06Debug = false }()
 		m, d := verifC06Run(conn, cl, cache, "ERR_REPLAY_SERVER", verifFlag("timeout"), len(buf.b))
 		verifAssert("C08.reflected.refused-as-server-replay", len(m.closed) == 1 && m.closed[0] == "ERR_REPLAY_SERVER" && len(m.authenticated) == 0)
 		verifAssert("C08.reflected.handled-like-a-probe", len(d.dials) == 0 && conn.writeCalls == 0 && len(m.probes) == 1 && len(conn.deadlines) == 1)
@@ -536,4 +546,64 @@ func VH_C08_reflected_with_connection_in_between() {
 	verifAssert("C08.in-between.refused-as-server-replay", len(m.closed) == 1 && m.closed[0] == "ERR_REPLAY_SERVER" && len(m.authenticated) == 0)
 	verifAssert("C08.in-between.handled-like-a-probe", conn.writeCalls == 0 && len(m.probes) == 1)
 	verifReach("C08.in-between.done", true)
+}
+
+
+// C08: reflected handshakes keep arriving on one listener (the same key again, another key):
+// each one is refused and absorbed like an invalid probe, however many came before
+func VH_C08_reflected_again_and_again() {
+	cl, specs, _ := verifMakeList(2, 2, false)
+	verifAssume(specs[0] != specs[1])
+	verifAssume(verifKey(specs[0].cipher, "s1").SaltSize() >= 20 && verifKey(specs[1].cipher, "s1").SaltSize() >= 20)
+	h := NewStreamHandler(NewShadowsocksStreamAuthenticator(cl, nil, nil, nil), tcpReadTimeout)
+	dialer := &verifDialer{conn: &verifStreamConn{name: "target", remote: &net.TCPAddr{IP: net.IPv4(93, 184, 216, 34), Port: 80}}}
+	h.SetTargetDialer(dialer)
+	done := make(chan int, 8)
+	const rounds = 4
+	go func() {
+		for r := 0; r < rounds; r++ {
+			which := 0
+			if r > 0 {
+				which = verifChoice("which", 2)
+			}
+			key := verifKey(specs[which].cipher, verifSecrets[specs[which].secret])
+			buf := &verifBuf{}
+			w := verifNewWriterWithSalt(buf, key, NewServerSaltGenerator(verifSecrets[specs[which].secret]))
+			w.Write([]byte{1, 93, 184, 216, 34, 0, 80, 'x', 'y'})
+			conn := &verifStreamConn{name: "client", remote: &net.TCPAddr{IP: net.IPv4(203, 0, 113, 5), Port: 50000 + r}}
+			conn.reads = []verifSRead{{data: buf.b}}
+			m := &verifTCPMetrics{}
+			h.Handle(context.Background(), conn, m)
+			verifAssert("C08.again.refused-as-server-replay", len(m.closed) == 1 && m.closed[0] == "ERR_REPLAY_SERVER" && len(m.authenticated) == 0)
+			verifAssert("C08.again.handled-like-a-probe", len(dialer.dials) == 0 && conn.writeCalls == 0 && len(m.probes) == 1 && conn.closed == 1 && conn.bytesRead == len(buf.b))
+			done <- r
+		}
+	}()
+	verifSettle(func() bool { return len(done) == rounds })
+	verifAssert("C08.again.every-one-is-handled-to-its-end", len(done) == rounds)
+	verifReach("C08.again.done", true)
+}
+
+// a valid stream cut short before its 50th byte (the client went silent or closed half-way
+// through its first segment), for every cipher mix of the key list, in particular lists whose
+// ciphers all need fewer than 50 bytes to check a key: it is not served and is absorbed like any
+// other probe, up to the same deadline
+func VH_C06_truncated_valid_stream() {
+	n := 1 + verifChoice("nkeys", 2)
+	cl, specs, entries := verifMakeList(n, 2, false)
+	which := verifChoice("which", n)
+	key := verifKey(specs[which].cipher, verifSecrets[specs[which].secret])
+	stream := verifClientStream(key, []byte{1, 93, 184, 216, 34, 0, 80, 'x', 'y'})
+	verifAssume(!entries[which].SaltGenerator.IsServerSalt(stream[:key.SaltSize()]))
+	l := []int{1, 33, 34, 35, 41, 42, 43, 49}[verifChoice("cut", 8)]
+	cut := stream[:l]
+	conn := &verifStreamConn{name: "client", remote: &net.TCPAddr{IP: net.IPv4(203, 0, 113, 5), Port: 50000}}
+	// in one segment or two
+	if at := verifChoice("split", 3); at > 0 && l > 20 {
+		conn.reads = []verifSRead{{data: cut[:10*at]}, {data: cut[10*at:]}}
+	} else {
+		conn.reads = []verifSRead{{data: cut}}
+	}
+	verifC06Run(conn, cl, nil, "ERR_CIPHER", verifFlag("timeout"), l)
+	verifReach("C06.truncated.enough-for-the-shortest-cipher", l >= 34)
 }
